@@ -1,10 +1,12 @@
 #!/bin/sh
-# One-time build of the framework from files on disk (offline).
-set -e
+# One-time build of the framework from files on disk (offline). A theorem module that does not
+# build is reported by that property's own check (tools/vcheck), not here: setup only fails
+# when the shared machinery (driver, harness) cannot be built.
 cd "$(dirname "$0")/.."
 export CARGO_NET_OFFLINE=true
 python3 tools/mkmain.py
-python3 tools/extract.py || true
-(cd lean && lake build)
-(cd harness && cargo build --release --offline --bins)
+python3 tools/extract.py || echo "setup: extractor reported failures (the affected checks will report them)"
+(cd lean && lake build) || echo "setup: some Lean modules failed to build (the affected checks will report them)"
+(cd lean && lake build umdriver) || { echo "setup: driver build failed"; exit 1; }
+(cd harness && cargo build --release --offline --bins) || { echo "setup: harness build failed"; exit 1; }
 echo setup-ok
